@@ -266,33 +266,32 @@ def run(ctx):
                 pos["new"][0], pos["load"][0], pos["update"][0], first_read, multi),
             example="an option present both in the config file and on the command line")
     R.floor("C20.3", len(reads), 3, "config_reads_in_main")
-    # the explicit-option dictionary: evaluated as a term
-    upd = pos["update"][1].value
-    star = [k for k in upd.keywords if k.arg is None]
-    okm = False
-    if len(star) == 1 and not upd.args and len(upd.keywords) == 1:
-        src = star[0].value
-        dc = None
-        if isinstance(src, ast.Name):
-            for st in body[:pos["update"][0]]:
-                if isinstance(st, ast.Assign) and len(st.targets) == 1 and isinstance(st.targets[0], ast.Name) and st.targets[0].id == src.id:
-                    dc = st.value
-        else:
-            dc = src
-        if isinstance(dc, ast.DictComp) and len(dc.generators) == 1:
-            g = dc.generators[0]
-            if isinstance(g.target, ast.Tuple) and len(g.target.elts) == 2 and all(isinstance(e, ast.Name) for e in g.target.elts) and ast.unparse(g.iter) == "vars(args).items()":
-                kn, vn = g.target.elts[0].id, g.target.elts[1].id
-                conds = g.ifs
-                if isinstance(dc.key, ast.Name) and dc.key.id == kn and isinstance(dc.value, ast.Name) and dc.value.id == vn and len(conds) == 1:
-                    c = conds[0]
-                    if isinstance(c, ast.Call) and dotted_parts(c.func) == ["getattr"] and len(c.args) == 3 and ast.unparse(c.args[0]) == "args" \
-                            and isinstance(c.args[2], ast.Constant) and c.args[2].value in (False, None) and isinstance(c.args[1], ast.BinOp) and isinstance(c.args[1].op, ast.Add) \
-                            and isinstance(c.args[1].left, ast.Name) and c.args[1].left.id == kn and isinstance(c.args[1].right, ast.Constant):
-                        okm = c.args[1].right.value == suffix
-    R.check("C20.2", "TABLE", fm, "main() re-applies exactly {option: value} whose marker (the suffix ExplicitOption writes) is set", okm,
-            "the explicit-option layer in main() is not {option: value for option, value in vars(args).items() if getattr(args, option + %r, False)}" % suffix,
-            line=upd.lineno, example="explicit flag vs. config file")
+    # the explicit-option layer: main() up to the update call is evaluated on a scripted namespace (two options given
+    # explicitly, the others at their defaults); whatever builds the dictionary -- comprehension, loop, helper function --
+    # the keyword arguments of config.update must be exactly the explicitly given options with their values
+    import copy as _copy
+    node2 = _copy.copy(fm.node)
+    node2.body = list(body[:pos["update"][0] + 1])
+    node2.decorator_list = []
+    fm2 = type(fm)(fm.module, node2, fm.cls)
+    evm = ctx.evaluator(opaque={M + "setup_parser", "bits.config.Config.__init__", "bits.config.Config.load_config", "bits.config.Config.update", "bits.set_log_level"})
+    s1 = evm.run(fm2)
+    argterms = [c[1][0] for c in s1.calls if c[0] == "builtins.vars" and c[1] and isinstance(c[1][0], T)]
+    okm, why = False, "vars(args) is not consulted before config.update"
+    if argterms:
+        ns = {"subcommand": "key", "network": "testnet", "log_level": "error", "input_format": "hex", "output_format": "bin", "rpc_url": None, "rpc_user": None,
+              "config_dir": P("config_dir", tm.STR), "in_file": P("in_file"), "out_file": P("out_file"),
+              "network" + (suffix or "__explicit"): True, "output_format" + (suffix or "__explicit"): True}
+        evm.objects = {argterms[0]: ns}
+        s2 = evm.run(fm2)
+        evm.objects = {}
+        ups = [c for c in s2.calls if c[0] in ("method:update", "bits.config.Config.update") and isinstance(c[2], dict)]
+        got = (rules.unfz(ups[-1][2]["**"]) if "**" in ups[-1][2] else dict(ups[-1][2])) if ups else None
+        want = {"network": "testnet", "output_format": "bin"}
+        okm = isinstance(got, dict) and got == want and not (ups[-1][4] or ups[-1][5])
+        why = "with --network testnet and -0b given explicitly (everything else at its default) config.update receives %s, expected %s" % (tm.show(got)[:200], want)
+    R.check("C20.2", "TABLE", fm, "main() re-applies exactly the options whose marker (the suffix ExplicitOption writes) is set, with their values", okm,
+            "the explicit-option layer in main() is wrong: %s" % why, line=pos["update"][1].lineno, example="explicit flag vs. config file")
     bad_reads = []
     for n in ast.walk(fm.node):
         if isinstance(n, ast.Attribute) and isinstance(n.value, ast.Name) and n.value.id == "args" and n.attr in keys:
